@@ -497,10 +497,18 @@ theorem lookup_mosn_noEmpty (k : String) (h : (k == "ClusterManager") = false) :
         · rfl
         · rfl
 
+theorem respectsF_optField (vf : List (String × Visit)) (fs : List (String × Val)) (k : String)
+    (h : ∀ t, respects (lookupV vf k) t = true) : respectsF vf (optField fs k) = true := by
+  unfold optField
+  cases getF fs k <;> simp [respectsF, h]
+
 theorem respects_cmOnlyTLS (c : Val) : respects (.fields cmVf) (cmOnlyTLS c) = true := by
   unfold cmOnlyTLS
-  cases ((getF c.fieldsOf "ClusterManagerConfigJson").bind fun j => getF j.fieldsOf "TLSContext") <;>
-    simp [respects, respectsF, lookupV, cmVf, cjVf]
+  have h1 : ∀ t, respects (lookupV cjVf "TLSContext") t = true := by intro t; cases t <;> simp [cjVf, lookupV, respects]
+  have h2 : ∀ t, respects (lookupV cjVf "ClusterPoolEnable") t = true := by intro t; cases t <;> simp [cjVf, lookupV, respects]
+  have := respectsF_append cjVf _ _ (respectsF_optField cjVf ((getF c.fieldsOf "ClusterManagerConfigJson").getD .leaf).fieldsOf "TLSContext" h1)
+    (respectsF_optField cjVf ((getF c.fieldsOf "ClusterManagerConfigJson").getD .leaf).fieldsOf "ClusterPoolEnable" h2)
+  simp [respects, respectsF, lookupV, cmVf, this]
 
 theorem respectsF_setMosnFields : (l : List (String × Val)) → respectsF mosnVf (setMosnFields l) = true
   | [] => by simp [setMosnFields, respectsF]
